@@ -12,7 +12,10 @@
 package simrt
 
 import (
+	"context"
+	"crypto/tls"
 	"fmt"
+	"net"
 	"runtime/debug"
 	"sort"
 	"strings"
@@ -230,7 +233,7 @@ func New(cfg Config, tape *Tape) *Sim {
 	return s
 }
 
-func (s *Sim) Close() { active.Store(nil) }
+func (s *Sim) Close() { active.Store(nil); DialHook = nil }
 
 func (s *Sim) Now() time.Duration { return time.Since(s.start) }
 
@@ -910,4 +913,27 @@ func SleepFor(d time.Duration) {
 		return
 	}
 	s.Sleep(d)
+}
+
+// ---------------------------------------------------------------- dial seam
+
+// DialHook, when set, replaces the network for TLSDialer (the rewriter turns every tls.Dialer of the library into a
+// TLSDialer). It must honour ctx the way a real dialer does.
+var DialHook func(ctx context.Context, network, addr string) (net.Conn, error)
+
+// TLSDialer stands in for crypto/tls.Dialer in instrumented code.
+type TLSDialer struct {
+	NetDialer *net.Dialer
+	Config    *tls.Config
+}
+
+func (d *TLSDialer) DialContext(ctx context.Context, network, addr string) (net.Conn, error) {
+	if h := DialHook; h != nil && active.Load() != nil {
+		return h(ctx, network, addr)
+	}
+	return (&tls.Dialer{NetDialer: d.NetDialer, Config: d.Config}).DialContext(ctx, network, addr)
+}
+
+func (d *TLSDialer) Dial(network, addr string) (net.Conn, error) {
+	return d.DialContext(context.Background(), network, addr)
 }
